@@ -21,7 +21,7 @@ CHECKS = {
                 technique="TLA+ CloneIso action property (TLC) + trace validation of real clone calls"),
     "C12": dict(level="model_checking", ref="§4 C12, §2.3, §2.4",
                 text="UidRule (relation form of inner_insert/inner_remove) is model-checked for UidDistinct/UidSetExact/UidStable; real histories with colliding ids are validated with the bookkeeping set exposed by hook H2.",
-                note="Trusted: hook H2 returns the real bookkeeping set; fresh ids recognised by first sight.",
+                note="Trusted: hook H2 returns the real bookkeeping set; fresh ids recognised by first sight. UidPairTrace.tla judges the identity of ids itself (==, hashing, sets, the DOM's collision decision) over a structured family of id pairs.",
                 technique="TLA+ UidRule relation + TLC + trace validation with hook-exposed bookkeeping set"),
     "C01": dict(level="model_checking", ref="§4 C01, §2.5",
                 text="Every generated forest is written by rbx_binary under the three compression modes and read back; TLC evaluates RoundTripIssues (BinaryFormat.tla) = {} on the logged before/after forests, with the permitted normalisations (BinaryString for unknown string blobs, 8-bit colour quantisation as a relation on bit patterns, epsilon rotation snapping, gained defaults) written as TLA+ operators over byte-vector values and the reflection database loaded as a constant.",
@@ -57,11 +57,11 @@ CHECKS = {
                 technique="TLA+ state machine of the writer's column logic (TLC) + exhaustive population replay + trace validation"),
     "C13": dict(level="fault_enumeration", ref="§4 C13, §2.7",
                 text="IoFaults.tla models a byte source with short reads and Interrupted errors and is model-checked for schedule independence and truncation detection; every maximal schedule TLC prints is replayed (cycled) over valid binary (3 compressions), XML and attribute inputs on the real decoders, whose result must equal the whole-buffer result. Truncation at every offset must be an error, a sink failing at every output offset must surface as an error, byte/u32-field mutations at every offset of files that hold one value of every type, nesting depths up to 10^5 and seeded random bytes must end in ok/err - never panic, abort or hang. Outcome classes are judged by FaultTrace.tla.",
-                note="Cases run in a child process under a 2 GiB address-space limit; aborts/hangs are attributed to the case announced last. Random bytes are explored, not exhausted; no memory-safety claim. One recorded finding (allocations sized by unchecked length fields).",
+                note="Cases run in a child process under a 2 GiB address-space limit; aborts/hangs are attributed to the case announced last. Random bytes are explored, not exhausted; no memory-safety claim. One recorded finding (allocations sized by unchecked length fields). Sinks that take 1-64 bytes per call must receive the same bytes as one that takes everything (kind `partial`); typed blobs (MaterialColors, Tags, Attributes cut to every length) go through both readers.",
                 technique="TLA+ fault/schedule model (IoFaults.tla, TLC) + exhaustive fault enumeration on the real decoders judged by FaultTrace.tla"),
     "C14": dict(level="model_checking", ref="§4 C14, §2.7",
                 text="AttrWire.tla transcribes docs/attributes.md (its worked examples are ASSUMEs); TLC decodes every blob Attributes::to_writer produced for generated maps and requires the decoded entries to be the map (String as BinaryString, rotations snapped like CFrames), the reader's result to equal it, and empty map <-> zero bytes. Blobs from an independent encoder written from the document are first held to AttrWire, then must decode to the described values with the real reader. The same predicate judges the Attributes property inside binary and XML files.",
-                note="Values sampled; the envelope slot of colour keypoints is written as zero by the foreign encoder.",
+                note="Values sampled; the envelope slot of colour keypoints is written as zero by the foreign encoder. Clause `files`: the bytes both file formats store for the Attributes property of three sibling instances (read back without the database) are the blobs; clause `sink-independent`.",
                 technique="TLA+ transcription of docs/attributes.md (AttrWire.tla) + trace validation + independent encoder"),
     "C15": dict(level="model_checking", ref="§4 C15, §2.5-2.6",
                 text="For every Migrate descriptor of the exported database, every legacy value (all Enum.Font items, all BrickColor numbers, both booleans, URIs) and {legacy only, legacy + explicit new}, the four paths (binary write, XML write, binary read, XML read; read paths in both chunk/element orders) are executed and TLC evaluates MigIssues: legacy name absent, new property present, value = the specified migration (colour table, inset enum, content URI; Font uninterpreted), explicit value wins, all paths agree; sibling cases put two instances with different legacy values and a bare one in one file. The writer's alias choice is also model-checked (MCBinaryColumns: ExplicitWins).",
@@ -77,7 +77,7 @@ CHECKS = {
                 technique="TLA+ text-form model (TLC) + trace validation of serde/text round trips (TextTrace.tla)"),
     "C18": dict(level="model_checking", ref="§4 C18, §2.4",
                 text="TLC checks SharedString.tla for every interleaving of 3-4 threads (DataIntact, Dedup, EmptyAtQuiescence, deadlock freedom, liveness of the release window); every maximal interleaving of the 2-thread model is executed by real threads parked by hook H1 and validated step by step with the complete intern-table state; barrier snapshots of free-running threads must satisfy all invariants, and a pair phase (the only two holders of a content drop simultaneously, 150 000 times) must never leave a table entry behind.",
-                note="Trusted: hook H1 placement (between Arc::into_inner and the table lock), TLC, thread/op bounds of the model; Arc internals are not modelled below the strong count.",
+                note="Trusted: hook H1 placement (between Arc::into_inner and the table lock), TLC, thread/op bounds of the model; Arc internals are not modelled below the strong count. A burst phase (all threads intern the same fresh content at once and compare buffers) and a pair-drop phase make the Dedup / TableLive observations independent of scheduling luck.",
                 technique="TLA+ spec SharedString.tla + TLC + deterministic schedule replay on real threads + trace validation"),
 }
 
